@@ -26,6 +26,18 @@ Theorem c16_no_move_without_permission : forall rows s e l0 dl maxn m ins, build
 Proof. exact build_no_move. Qed.
 Print Assumptions c16_no_move_without_permission.
 
+(* nothing interleaves: when the numbers ascend and a request is accepted in place, every line in front of the block is
+   numbered below the first new number and every line behind it above the last one *)
+Theorem c16_in_place_keeps_order : forall rows s e l0 dl maxn m ins,
+  build rows s e l0 dl false maxn = Accepted m ins ->
+  (forall r1 p1 r2 p2, In (r1, p1) (defs_from 0 rows) -> In (r2, p2) (defs_from 0 rows) -> r1 < r2 -> p1 < p2) ->
+  let ln := l0 + dl * (lenN (keys_of (map snd (filter (fun d => in_sel s e (fst d)) (defs_from 0 rows)))) - 1) in
+  (exists r p, In (r, p) (defs_from 0 rows) /\ in_sel s e r = true) /\
+  (forall r p, In (r, p) (defs_from 0 rows) -> r < s -> p < l0) /\
+  (forall r p, In (r, p) (defs_from 0 rows) -> e < r -> ln < p).
+Proof. exact build_in_place_keeps_order. Qed.
+Print Assumptions c16_in_place_keeps_order.
+
 Theorem c16_edits_apply_as_substitution : forall line es, edits_ok 0 (length line) es -> apply_right line es = subst_from line 0 es.
 Proof. exact apply_right_spec. Qed.
 Print Assumptions c16_edits_apply_as_substitution.
